@@ -9,7 +9,7 @@
 //
 //	reset <stageAmount> <usedAtStart> <crVotingPeriod> <publicVotingPeriod> <agreementCount> <withdrawFee> <rejectThreshold> [<usedNow>]
 //	begin <height>
-//	propose <id> <type:stage:amount,...>        CRCProposal (Normal), real context check
+//	propose <id> <type:stage:amount,...> [elip] CRCProposal (Normal or ELIP), real context check
 //	review <id> <member> <a|r>                  environment: CRCProposalReview processed
 //	rejvotes <id> <amount>                      environment: public reject votes on the proposal
 //	track <id> <p|t|f|c|r> <stage>              CRCProposalTracking Progress/Terminated/Finalized/Common/Rejected, real check
@@ -212,6 +212,7 @@ func errClass(e error) string {
 		{"budgets exceeds 10%", "over10"},
 		{"budgets exceeds the balance", "overbal"},
 		{"budgets is invalid", "negsum"},
+		{"ELIP needs to have", "elip"},
 		{"budgets amount overflow", "overflow"},
 		{"invalid amount", "negamount"},
 		{"imprest can only be in the first phase", "shape"},
@@ -372,8 +373,12 @@ func exec(t []string) string {
 		}
 		m := w.members[0]
 		draft := []byte(fmt.Sprintf("draft-%d", id))
+		ptype := payload.Normal
+		if len(t) >= 4 && t[3] == "elip" {
+			ptype = payload.ELIP
+		}
 		pl := &payload.CRCProposal{
-			ProposalType: payload.Normal, CategoryData: "c", OwnerKey: w.owner.pk, DraftData: draft, DraftHash: common.Hash(draft),
+			ProposalType: ptype, CategoryData: "c", OwnerKey: w.owner.pk, DraftData: draft, DraftHash: common.Hash(draft),
 			Budgets: parseBudgets(t[2]), Recipient: w.owner.standardHash(), CRCouncilMemberDID: m.did(),
 		}
 		pv := payload.CRCProposalVersion01
